@@ -13,15 +13,22 @@ not touch an eaopack object.  It is formulated over PHYSICAL quantities (the Lea
               takes: for a period [s,e) with volume V:  sum_{t active, s<=p_t<e} q_t  (<= | >=)  V*covered/(e-s),
               covered = sum of dt over those steps (e-s in main time units); no such step -> no restriction
   multi       a contract whose flow into node k is factor_k*q_t (takes act on q)
-  transport   f_t in [min,max]*dt_t, flows (-f_t at node 0, +eff*f_t at node 1), cash -df_t*cost_t*|f_t|,
-              takes on f_t (volume leaving node 0)
+  transport   a line between node 0 and node 1; [min,max] bound the signed rate "from node 0 to node 1".  PHYSICAL form: the
+              flow is split into a forward part fw_t in [max(min,0), max(max,0)]*dt_t SENT from node 0 (eff*fw_t arrives at
+              node 1) and a backward part bw_t in [max(-max,0), max(-min,0)]*dt_t SENT from node 1 (eff*bw_t arrives at
+              node 0): delivered = eff x sent, whatever the direction; cash -df_t*cost_t*(fw_t + bw_t) (costs per unit sent);
+              takes on the net volume leaving node 0, fw_t - eff*bw_t.
+              With min >= 0 (bw = 0) or eff = 1 this is the signed single-variable form f = fw - bw, flows (-f, +eff*f), cash
+              -df*cost*|f| of `EAO/Spec/Textbook.lean` (TransportS); with min < 0 and eff != 1 the two differ (finding F-02c
+              of eaopack: a reversed flow is DIVIDED by the efficiency; see `run_case`)
   storage     charge ch_t in [0,cap_in*dt_t], discharge di_t in [0,cap_out*dt_t],
               L_t = L_{t-1} + eff*ch_t - di_t + inflow*dt_t, L_{-1} = start level, 0 <= L_t <= size, L_last = end level,
               flow di_t - ch_t (two nodes: -ch_t at node 0, +di_t at node 1),
               cash df_t*(price_t*(di_t-ch_t) - cost_in*ch_t - cost_out*di_t) - cost_store*dt_t*df_t*L_t
   portfolio   at every node and step the flows of all assets add up to zero; maximise total cash.
 
-|q| and |f| are modelled by an epigraph variable a >= q, a >= -q (needs a non-negative coefficient).
+|q| is modelled by an epigraph variable a >= q, a >= -q (needs a non-negative coefficient); the two parts of a transport are
+non-negative, so their costs are linear.
 
 eaopack leaves the holding cost of the start level and of the accumulated inflow out of its value (docstring
 of Storage: "constant contribution not part of output NPV"); the exact constant is
@@ -47,20 +54,20 @@ THEOREMS_C02 = [
     ('EAO.Properties.C02', 'EAO.C02.portfolio_refines', 'if every asset problem and its textbook semantics dominate each other (same flows, no less cash, both directions), then every feasible point of the assembled problem maps to a textbook-feasible portfolio point with the same flows per asset and no less value, and vice versa; hence the same upper bounds of the value sets = the same optimum (no optimum assumed to exist)'),
     ('EAO.Properties.C02', 'EAO.C02.storage_refines_two', 'plain LP storage, two variables per step (efficiency, in/out costs, two nodes): the problem buildStorage returns and the textbook storage (rates, level recursion with efficiency on the charge side, 0<=L<=size, L_last=end, flows -ch/+di, cash incl. holding cost on the level) have the SAME attainable (flows, cash) pairs; eaopack value = textbook cash + holdingConstant'),
     ('EAO.Properties.C02', 'EAO.C02.storage_refines_one', 'the same for the one-variable form (x = di - ch)'),
-    ('EAO.Properties.C02', 'EAO.C02.transport_refines', 'buildTransport vs textbook transport (f in [min,max]*dt, flows -f / +eff*f, cash -df*cost*|f|): same attainable pairs, incl. the sign flip of the costs when all capacities are <= 0'),
+    ('EAO.Properties.C02', 'EAO.C02.transport_refines', 'buildTransport vs the textbook transport in its SIGNED form (Spec/Textbook.lean TransportS: f in [min,max]*dt, flows -f / +eff*f, cash -df*cost*|f|): same attainable pairs, incl. the sign flip of the costs when all capacities are <= 0.  The signed form is the physical line (delivered = eff x sent in either direction; reference LP of the oracle) only under the hypothesis min_cap >= 0 or eff = 1, evaluated per case (hypotheses_failing: forward-or-lossless); outside it the theorem still ties the code to the signed form, and the oracle shows that this form is not the physical one (finding F-02c)'),
     ('EAO.Properties.C02', 'EAO.C02.contract_refines_one', 'buildSimpleContract in its one-variable form vs textbook contract (q in [min_t,max_t]*dt_t with the rates make_vector returns, flow +q, cash -df*(price*q + ec*|q|)): same attainable pairs'),
     ('EAO.Properties.C02', 'EAO.C02.contract_refines_two', 'buildSimpleContract in its two-variable form, under ec_t >= 0 and df_t >= 0: problem and textbook contract dominate each other (Refines): textbook -> model by splitting q into negative and positive part (same flow, same cash), model -> textbook by netting x_in + x_out (same flow, no less cash)'),
     ('EAO.Properties.C02', 'EAO.C02.take_rows_spec', 'the take rows of buildContract hold at x iff the textbook take constraints sum_{t in period and window} q_t (<=|>=) V*covered/((e-s)/unit) hold, q = x (one variable) resp. x_in + x_out (two variables); periods covering no step give no row'),
     ('EAO.Properties.C02', 'EAO.C02.contract_take_refines', 'buildContract (capacities, spread, min/max takes) vs the textbook contract with the same periods: same attainable pairs in the one-variable form, mutual domination in the two-variable form under ec >= 0, df >= 0'),
     ('EAO.Properties.C02', 'EAO.C02.multi_refines', 'buildMulti vs the textbook multi-commodity contract: flows factor_k*q_t at node k, feasible set (capacities, takes on q) and cash of the underlying contract; exact resp. Refines as for contracts'),
     ('EAO.Properties.C02', 'EAO.C02.take_rows_spec_transport', 'the take rows of buildExtTransport (at the first node, factor -1, negated volume, L for a maximum and U for a minimum) hold iff the textbook take constraints on the volume f leaving the first node hold (two different nodes)'),
-    ('EAO.Properties.C02', 'EAO.C02.ext_transport_refines', 'buildExtTransport vs the textbook transport with take periods: same attainable (flows, cash) pairs'),
+    ('EAO.Properties.C02', 'EAO.C02.ext_transport_refines', 'buildExtTransport vs the textbook transport (signed form, as for transport_refines: physical under min_cap >= 0 or eff = 1) with take periods: same attainable (flows, cash) pairs'),
     ('EAO.Properties.C02', 'EAO.C02.empty_window_refines', 'on a window without a step every contract/transport builder returns the problem without variables, which attains exactly (no flow, no cash), as does every textbook contract and transport on that window'),
     ('EAO.Properties.C02', 'EAO.C02.empty_window_refines_storage', 'the same for buildStorage (any options)'),
     ('EAO.Properties.C02', 'EAO.C02.simple_data', 'inversion of buildSimpleContract: sampled price, spread, rates lo/hi that make_vector returns, volume limits = rate*dt, one- or two-variable problem'),
     ('EAO.Properties.C02', 'EAO.C02.Ex.ec_nonneg_needed', 'witness that the two-variable contract needs ec >= 0: spread -1 lets the model earn 2 with zero net flow, the textbook contract earns 0'),
 ]
-COMPONENTS_C02 = ['oracle textbook: independent scipy/HiGHS LP over physical quantities vs eaopack optimum (2e-6 rel.) and feasibility of eaopack\'s dispatch in it (1e-6); repeated set-up on the same objects',
+COMPONENTS_C02 = ['oracle textbook: independent scipy/HiGHS LP over physical quantities (transports as lines with a forward and a backward part) vs eaopack optimum (2e-6 rel.) and feasibility of eaopack\'s dispatch in it (1e-6); repeated set-up on the same objects; violations explained by a finding the reference can reproduce (F-19c, F-02c) carry that finding\'s fact `kind`',
                   'builder correspondences: harness/comp/contract.py, harness/comp/storage.py']
 
 
@@ -78,10 +85,12 @@ def forever_overflows(tz):
 
 
 class Grid:
-    def __init__(self, g, follow_f19c=False):
+    def __init__(self, g, follow=()):
         self.tz = g.get('tz')
-        self.follow_f19c = follow_f19c      # reproduce finding F-19c instead of the documented meaning
+        self.follow = frozenset(follow)     # ids of findings of eaopack the reference REPRODUCES instead of the documented meaning
+        self.follow_f19c = 'F-19c' in self.follow
         self.f19c_hits = 0                  # number of parameters to which F-19c applies
+        self.f02c_hits = []                 # transports to which F-02c applies (negative capacity with efficiency != 1)
         s = pd.Timestamp(g['start'], tz=self.tz)
         e = pd.Timestamp(g['end'], tz=self.tz)
         self.start, self.end = s, e
@@ -219,7 +228,8 @@ class LP:
 
 
 def take_rows(G, lp, take, sense, cols, steps, label):
-    """sum over the active steps inside [s,e) of the volume (<=|>=) V prorated to the covered time"""
+    """sum over the active steps inside [s,e) of the volume (<=|>=) V prorated to the covered time; the volume of a step is
+    one column or a linear expression {column: factor}"""
     if take is None:
         return
     for s, e, v in zip(take['start'], take['end'], take['values']):
@@ -229,7 +239,11 @@ def take_rows(G, lp, take, sense, cols, steps, label):
             continue
         covered = sum(G.dt[steps[k]] for k in inside)
         total = (e - s) / G.unit
-        lp.row({cols[k]: 1.0 for k in inside}, sense, float(v) * covered / total, label)
+        co = {}
+        for k in inside:
+            for col, fac in (cols[k].items() if isinstance(cols[k], dict) else [(cols[k], 1.0)]):
+                co[col] = co.get(col, 0.0) + fac
+        lp.row(co, sense, float(v) * covered / total, label)
 
 
 def add_contract(G, lp, spec, prices, phys):
@@ -262,6 +276,11 @@ def add_contract(G, lp, spec, prices, phys):
 
 
 def add_transport(G, lp, spec, prices, phys):
+    """the physical line: forward part fw (sent from node 0) and backward part bw (sent from node 1), both >= 0; each loses
+    (1 - eff) of what is SENT in its own direction; costs per unit sent.  When the reference is asked to reproduce finding
+    F-02c of eaopack (`'F-02c' in G.follow`), the backward part of a transport with a negative capacity and eff != 1 gets the
+    factors of eaopack's single signed variable instead: bw arrives at node 0 and eff*bw leaves node 1 (a reversed flow is
+    divided by the efficiency instead of multiplied)"""
     a = spec['args']
     steps = G.active(a)
     df = G.discount(a.get('wacc', 0.0))
@@ -273,20 +292,29 @@ def add_transport(G, lp, spec, prices, phys):
     lo = series(G, a.get('min_cap', 0.0), prices, steps)
     hi = series(G, a.get('max_cap', 0.0), prices, steps)
     eff = float(a.get('efficiency', 1.0))
-    cols = []
+    lossy_reverse = bool(len(steps)) and eff != 1.0 and bool((lo < 0).any())
+    if lossy_reverse:
+        G.f02c_hits.append(spec['name'])
+    # factors of the backward part at (node 0, node 1)
+    bfac = (1.0, -eff) if (lossy_reverse and 'F-02c' in G.follow) else (eff, -1.0)
+    fw, bw, net = [], [], []
     for k, t in enumerate(steps):
         l, h = lo[k] * G.dt[t], hi[k] * G.dt[t]
-        f = lp.var(l, h, 0.0, '%s.f[%d]' % (spec['name'], t))
-        if cost[k] != 0:
-            lp.absvar(f, max(abs(l), abs(h)), df[t] * cost[k], '%s.|f|[%d]' % (spec['name'], t))
+        f = lp.var(max(l, 0.0), max(h, 0.0), -df[t] * cost[k], '%s.fw[%d]' % (spec['name'], t))
+        b = lp.var(max(-h, 0.0), max(-l, 0.0), -df[t] * cost[k], '%s.bw[%d]' % (spec['name'], t))
+        # (an empty capacity interval l > h leaves one of the two parts with an empty interval, too)
         lp.flow(spec['nodes'][0], t, f, -1.0)
         lp.flow(spec['nodes'][1], t, f, eff)
-        cols.append(f)
+        lp.flow(spec['nodes'][0], t, b, bfac[0])
+        lp.flow(spec['nodes'][1], t, b, bfac[1])
+        fw.append(f), bw.append(b)
+        net.append({f: 1.0, b: -bfac[0]})       # net volume leaving node 0
     if spec['type'] == 'ExtendedTransport':
-        take_rows(G, lp, a.get('max_take'), '<=', cols, steps, spec['name'] + ' max take')
-        take_rows(G, lp, a.get('min_take'), '>=', cols, steps, spec['name'] + ' min take')
-    phys[spec['name']] = {'kind': 'transport', 'steps': steps, 'f': cols, 'lo': lo * G.dt[steps] if steps else lo,
-                          'hi': hi * G.dt[steps] if steps else hi, 'cost': cost, 'df': df, 'eff': eff}
+        take_rows(G, lp, a.get('max_take'), '<=', net, steps, spec['name'] + ' max take')
+        take_rows(G, lp, a.get('min_take'), '>=', net, steps, spec['name'] + ' min take')
+    phys[spec['name']] = {'kind': 'transport', 'steps': steps, 'fw': fw, 'bw': bw, 'lo': lo * G.dt[steps] if steps else lo,
+                          'hi': hi * G.dt[steps] if steps else hi, 'cost': cost, 'df': df, 'eff': eff, 'bfac': bfac,
+                          'lossy_reverse': lossy_reverse}
 
 
 def add_storage(G, lp, spec, prices, phys):
@@ -337,9 +365,9 @@ BUILDERS = {'SimpleContract': add_contract, 'Contract': add_contract, 'MultiComm
             'Transport': add_transport, 'ExtendedTransport': add_transport, 'Storage': add_storage}
 
 
-def textbook(scn, follow_f19c=False):
-    """(Grid, LP, physical-variable directory) of the scenario"""
-    G = Grid(scn['grid'], follow_f19c)
+def textbook(scn, follow=()):
+    """(Grid, LP, physical-variable directory) of the scenario; `follow`: ids of findings of eaopack to reproduce (see Grid)"""
+    G = Grid(scn['grid'], follow)
     lp = LP()
     phys = {}
     for spec in scn['assets']:
@@ -360,7 +388,8 @@ def constant(phys):
 def physical_of_eao(scn, G, phys, blocks, x):
     """eaopack's variable blocks mapped to the physical quantities of the reference:
     storage  2n variables: charge = -x_in, discharge = x_out; n variables: charge = max(-x,0), discharge = max(x,0)
-    contract 2n variables: q = x_in + x_out;  n variables: q = x;  transport: f = x"""
+    contract 2n variables: q = x_in + x_out;  n variables: q = x
+    transport: the variable is the signed volume the capacities bound: forward part = max(x,0), backward part = max(-x,0)"""
     out = {}
     for spec in scn['assets']:
         p = phys[spec['name']]
@@ -381,7 +410,7 @@ def physical_of_eao(scn, G, phys, blocks, x):
         else:
             if two:
                 raise ValueError('transport %s with two variables per step' % spec['name'])
-            out[spec['name']] = {'f': xa}
+            out[spec['name']] = {'fw': np.maximum(xa, 0.0), 'bw': np.maximum(-xa, 0.0)}
     return out
 
 
@@ -434,15 +463,18 @@ def check_physical(scn, G, phys, pq, tol=FEAS_TOL):
                 takes(name, a.get('max_take'), '<=', q, steps)
                 takes(name, a.get('min_take'), '>=', q, steps)
         elif p['kind'] == 'transport':
-            f = pq[name]['f']
+            fw, bw = pq[name]['fw'], pq[name]['bw']
+            b0, b1 = p['bfac']
             for k, t in enumerate(steps):
-                box(name, 'flow', t, f[k], p['lo'][k], p['hi'][k])
-                add_flow(spec['nodes'][0], t, -f[k])
-                add_flow(spec['nodes'][1], t, p['eff'] * f[k])
-                cash += -p['df'][t] * p['cost'][k] * abs(f[k])
+                box(name, 'volume sent forward', t, fw[k], max(p['lo'][k], 0.0), max(p['hi'][k], 0.0))
+                box(name, 'volume sent backward', t, bw[k], max(-p['hi'][k], 0.0), max(-p['lo'][k], 0.0))
+                add_flow(spec['nodes'][0], t, -fw[k] + b0 * bw[k])
+                add_flow(spec['nodes'][1], t, p['eff'] * fw[k] + b1 * bw[k])
+                cash += -p['df'][t] * p['cost'][k] * (fw[k] + bw[k])
             if spec['type'] == 'ExtendedTransport':
-                takes(name, a.get('max_take'), '<=', f, steps)
-                takes(name, a.get('min_take'), '>=', f, steps)
+                net = [fw[k] - b0 * bw[k] for k in range(len(steps))]
+                takes(name, a.get('max_take'), '<=', net, steps)
+                takes(name, a.get('min_take'), '>=', net, steps)
         else:
             ch, di = pq[name]['ch'], pq[name]['di']
             L = p['start']
@@ -487,7 +519,91 @@ def gen_case(rnd):
             args['wacc'] = rnd.choice([0.1, 0.5, 1.0, 3.0])
         if 'wacc' not in args and rnd.random() < 0.2:
             args['wacc'] = rnd.choice([0.05, 0.1, 0.5, 0.07])
+    forward_or_lossless(scn)
     return scn
+
+
+def forward_or_lossless(scn):
+    """harness.gen.gen_transport draws 20 % of the transports with capacities [-c, 0] (used from the second to the first node)
+    and, independently, an efficiency from {0.25, 0.5, 0.75, 0.875, 1, 1.5}.  With a negative capacity AND efficiency != 1
+    eaopack does not describe a physical line (finding F-02c); the general streams keep such transports LOSSLESS (efficiency 1:
+    the reversed direction with the sign flip of the costs stays covered, efficiencies stay covered by the 80 % forward
+    transports); reversed lossy lines are the subject of the probe stream `gen_reversed_case`.  No random draw is consumed."""
+    for a in scn['assets']:
+        if a['type'] in ('Transport', 'ExtendedTransport'):
+            args = a['args']
+            lo = args.get('min_cap', 0.0)
+            if (not isinstance(lo, (int, float)) or lo < 0) and args.get('efficiency', 1.0) != 1.0:
+                args['efficiency'] = 1.0
+    return scn
+
+
+def gen_reversed_case(rnd):
+    """probe stream `reversed`: a line with losses (efficiency in (0,1)) between two nodes whose capacities allow a flow from its
+    SECOND to its first node (capacities <= 0, or of both signs - then without costs, as eaopack demands), or, as a control,
+    only forward; Transport or ExtendedTransport (takes limit the volume taken back at the first node); prices around the
+    two thresholds at which the reversed flow pays (eaopack's: p_first > eff*p_second + cost; a physical line's:
+    eff*p_first > p_second + cost), one- or two-sided markets at the two nodes, sometimes a further contract, window, wacc"""
+    from .. import gen
+    g = gen.gen_grid(rnd, tmin=2, tmax=8)
+    T = gen.real_T(g)
+    n0, n1 = 'N1', 'N2'                      # the transport's node list is [n0, n1]
+    prices = {}
+    direction = rnd.choice(['reverse', 'reverse', 'reverse', 'both', 'both', 'forward'])
+    eff = rnd.choice([0.5, 0.75, 0.8, 0.875, 0.9, 0.25, round(rnd.uniform(0.1, 0.99), 3)])
+    targs = {'efficiency': eff}
+    c = gen.q8(rnd, 0.5, 6)
+    if direction == 'reverse':
+        targs['min_cap'], targs['max_cap'] = -c, (0.0 if rnd.random() < 0.75 else -gen.q8(rnd, 0, c))
+    elif direction == 'both':
+        targs['min_cap'], targs['max_cap'] = -c, gen.q8(rnd, 0.5, 6)
+    else:
+        targs['min_cap'], targs['max_cap'] = (0.0 if rnd.random() < 0.75 else gen.q8(rnd, 0, c)), c
+    cmax = 0.0
+    if direction != 'both':                  # eaopack accepts capacities of both signs only without costs
+        if rnd.random() < 0.5:
+            targs['costs_const'] = gen.q8(rnd, 0, 2)
+            cmax += targs['costs_const']
+        if rnd.random() < 0.3:
+            prices['tc'] = [gen.q8(rnd, 0, 2) for _ in range(T)]
+            targs['costs_time_series'] = 'tc'
+            cmax += 2.0
+    ext = rnd.random() < 0.45
+    if ext:
+        if rnd.random() < 0.6 and direction != 'forward':
+            targs['min_take'] = gen.take_dict(rnd, g, -20, -1)       # at most so much taken back at the first node
+        if rnd.random() < 0.4:
+            targs['max_take'] = gen.take_dict(rnd, g, 0, 10) if direction != 'reverse' else gen.take_dict(rnd, g, 0, 0)
+    if rnd.random() < 0.3:
+        gen.put_window(targs, gen.window(rnd, g, kinds=['inside', 'start_only', 'end_only', 'straddle_end', 'straddle_start']))
+    if rnd.random() < 0.2:
+        targs['wacc'] = rnd.choice([0.05, 0.1, 0.5])
+    # prices: the source node is where the flow the capacities allow starts
+    src, dst = (n0, n1) if direction == 'forward' else (n1, n0)
+    if direction == 'both':
+        prices['p_' + n0] = [gen.q8(rnd, 1, 12) for _ in range(T)]
+        prices['p_' + n1] = [gen.q8(rnd, 1, 12) for _ in range(T)]
+    else:
+        ps = [gen.q8(rnd, 1, 10) for _ in range(T)]
+        prices['p_' + src] = ps
+        prices['p_' + dst] = [gen.q8(rnd, max(0.0, eff * p - 1), (p + cmax) / eff + 6) for p in ps]
+    assets = []
+    for nd in (n0, n1):
+        r = rnd.random()
+        if direction == 'both' or r < 0.35:
+            lo, hi = -40.0, 40.0             # two-sided market
+        elif nd == src:
+            lo, hi = 0.0, rnd.choice([100.0, 40.0, gen.q8(rnd, 1, 8)])       # supply only
+        else:
+            lo, hi = -rnd.choice([100.0, 40.0, gen.q8(rnd, 1, 8)]), 0.0      # demand only
+        a = {'type': 'SimpleContract', 'name': 'mkt_' + nd, 'nodes': [nd], 'args': {'min_cap': lo, 'max_cap': hi, 'price': 'p_' + nd}}
+        if rnd.random() < 0.2:
+            a['args']['extra_costs'] = gen.q8(rnd, 0.125, 1)
+        assets.append(a)
+    assets.insert(rnd.randint(0, 2), {'type': 'ExtendedTransport' if ext else 'Transport', 'name': 'line', 'nodes': [n0, n1], 'args': targs})
+    if rnd.random() < 0.3:
+        assets.append(gen.gen_simple_contract(rnd, g, prices, T, 'sc', rnd.choice([n0, n1])))
+    return {'grid': g, 'nodes': [n0, n1], 'prices': prices, 'assets': assets, 'probe': {'direction': direction, 'efficiency': eff}}
 
 
 def features_of(scn):
@@ -514,26 +630,56 @@ def kinds_of(scn):
     return sorted(set(a['type'] + ('2' if a['type'] == 'Storage' and len(a['nodes']) == 2 else '') for a in scn['assets']))
 
 
+# findings of eaopack the reference can reproduce: id -> (fact `kind` of the violation, what the finding is)
+FOLLOWABLE = {
+    'F-19c': ('forever_end_overflow', 'interval data with a single start and no end is dropped on a grid in zone %(tz)s '
+              '(pd.Timestamp.max overflows when localised)'),
+    'F-02c': ('reversed_transport_gain', 'transport %(transports)s used in reverse (negative capacity) with efficiency %(efficiency)s: '
+              'eaopack divides the reversed flow by the efficiency instead of multiplying (a line delivers efficiency x sent in '
+              'either direction; with efficiency < 1 more arrives than is sent)'),
+}
+
+
 def run_case(case, drv=None):
-    """property-module interface.  A violation that disappears when the reference reproduces the KNOWN finding F-19c
-    (see `forever_overflows`) is reported once, with the fact kind='forever_end_overflow' (the `when` of F-19c)"""
-    r = _run_case(case, False)
-    if r['violations'] and r.pop('_f19c_hits', 0) > 0:
-        r2 = _run_case(case, True)
-        if not r2['violations']:
-            first = r['violations'][0]
-            r2['violations'] = [{'oracle': 'textbook', 'detail': 'interval data with a single start and no end is dropped on a grid '
-                                 'in zone %s (pd.Timestamp.max overflows when localised): %s' % (case['grid'].get('tz'), first['detail']),
-                                 'facts': dict(first['facts'], kind='forever_end_overflow')}]
-            r2['features'].append('finding:F-19c')
-            r2['evaluated'] = 2
-            r2.pop('_f19c_hits', None)
-            return r2
-    r.pop('_f19c_hits', None)
+    """property-module interface.  A violation that disappears when the reference REPRODUCES a finding of eaopack that applies
+    to the case (F-19c, see `forever_overflows`; F-02c, see `add_transport`) is reported once, with the fact `kind` of that
+    finding (kind='forever_end_overflow' / kind='reversed_transport_gain': what the `when` of the finding matches); findings
+    are tried one by one, then together"""
+    r = _run_case(case, ())
+    hits = r.pop('_hits', {})
+    if not r['violations']:
+        return r
+    cands = [k for k in ('F-19c', 'F-02c') if hits.get(k)]
+    evaluated = 1
+    for follow in [(k,) for k in cands] + ([tuple(cands)] if len(cands) > 1 else []):
+        r2 = _run_case(case, follow)
+        r2.pop('_hits', None)
+        evaluated += 1
+        if r2['violations']:
+            continue
+        info = {'tz': case['grid'].get('tz'), 'transports': ', '.join(hits.get('F-02c') or []),
+                'efficiency': ', '.join('%g' % e for e in hits.get('F-02c_eff', []))}
+        first = r['violations'][0]
+        detail = ' | '.join(v['detail'] for v in r['violations'][:2])
+        r2['violations'] = []
+        for k in follow:
+            kind, text = FOLLOWABLE[k]
+            facts = dict(first['facts'], kind=kind, whats=sorted(set(v['facts'].get('what') for v in r['violations'])))
+            if k == 'F-02c':
+                facts.update(transports=list(hits['F-02c']), efficiency=list(hits['F-02c_eff']), eff_lt_1=all(e < 1 for e in hits['F-02c_eff']),
+                             eao_value=r['observed'].get('eao_value'), physical_value=r['observed'].get('textbook_value_plus_constant'),
+                             value_with_finding_reproduced=r2['observed'].get('textbook_value_plus_constant'))
+            r2['violations'].append({'oracle': 'textbook', 'detail': '%s: %s' % (text % info, detail), 'facts': facts})
+            r2['features'].append('finding:' + k)
+        r2['observed']['reference_reproduces'] = list(follow)
+        r2['observed']['physical'] = {k: r['observed'].get(k) for k in ('textbook_value', 'textbook_value_plus_constant', 'cash_of_eao_dispatch_in_textbook')}
+        r2['evaluated'] = evaluated
+        return r2
+    r['evaluated'] = evaluated
     return r
 
 
-def _run_case(case, follow_f19c):
+def _run_case(case, follow):
     from .. import pf, impl
     scn = case
     r = {'evaluated': 1, 'nontrivial': False, 'features': features_of(scn), 'disagreements': [], 'violations': [], 'observed': {}}
@@ -545,8 +691,8 @@ def _run_case(case, follow_f19c):
 
     # ---- reference
     try:
-        G, lp, phys = textbook(scn, follow_f19c)
-        r['_f19c_hits'] = G.f19c_hits
+        G, lp, phys = textbook(scn, follow)
+        r['_hits'] = {'F-19c': G.f19c_hits, 'F-02c': list(G.f02c_hits), 'F-02c_eff': [phys[n]['eff'] for n in G.f02c_hits]}
     except Unsupported as e:
         feats.append('unsupported:' + str(e))
         return r
@@ -578,7 +724,9 @@ def _run_case(case, follow_f19c):
             rec['tg'].T, list(rec['tg'].dt[:4]), G.T, list(G.dt[:4])))
         return r
     # ---- explicit hypotheses of the refinement theorems, evaluated on this case (EAO.C02.contract_refines_two,
-    #      take_rows_spec: extra costs >= 0, discount factors >= 0, pairwise different steps of the grid)
+    #      take_rows_spec: extra costs >= 0, discount factors >= 0, pairwise different steps of the grid; transport_refines /
+    #      ext_transport_refines tie the code to the SIGNED textbook transport, which is the physical line only if the
+    #      transport has no negative capacity on its window or efficiency 1)
     I_all = np.asarray(rec['tg'].I)
     hyp = []
     if len(set(I_all.tolist())) != len(I_all):
@@ -590,6 +738,10 @@ def _run_case(case, follow_f19c):
         w = spec.get('args', {}).get('wacc', 0)
         if isinstance(w, (int, float)) and w <= -1:
             hyp.append('df>=0:' + spec['name'])
+    for nm in G.f02c_hits:
+        hyp.append('forward-or-lossless:' + nm)
+    if G.f02c_hits:
+        feats.append('hyp-outside:transport-reversed-with-loss')
     feats.append('hyp:holds' if not hyp else 'hyp:fails')
     r['observed']['hypotheses_failing'] = hyp
     if len(rec['op'].c) == 0:
@@ -674,7 +826,7 @@ def _run_case(case, follow_f19c):
 
 def selftest(n=300, seed=1, verbose=False):
     rnd = random.Random(seed)
-    tot = {'cases': 0, 'evaluated': 0, 'nontrivial': 0, 'solved': 0, 'violations': [], 'known_F19c': [], 'errors': [], 'features': {}}
+    tot = {'cases': 0, 'evaluated': 0, 'nontrivial': 0, 'solved': 0, 'violations': [], 'known_F19c': [], 'known_F02c': [], 'errors': [], 'features': {}}
     for i in range(n):
         sub = random.Random(rnd.getrandbits(48))
         case = gen_case(sub)
@@ -690,7 +842,7 @@ def selftest(n=300, seed=1, verbose=False):
         for f in r['features']:
             tot['features'][f] = tot['features'].get(f, 0) + 1
         for v in r['violations']:
-            key = 'known_F19c' if v['facts'].get('kind') == 'forever_end_overflow' else 'violations'
+            key = {'forever_end_overflow': 'known_F19c', 'reversed_transport_gain': 'known_F02c'}.get(v['facts'].get('kind'), 'violations')
             tot[key].append((i, v, case))
             if verbose:
                 print(i, key, v['detail'])
@@ -704,7 +856,7 @@ if __name__ == '__main__':
     n = int(sys.argv[1]) if len(sys.argv) > 1 else 300
     seed = int(sys.argv[2]) if len(sys.argv) > 2 else 1
     t = selftest(n, seed, verbose=True)
-    print(json.dumps({k: (v if k not in ('violations', 'errors', 'known_F19c') else len(v)) for k, v in t.items()}, indent=1, sort_keys=True))
+    print(json.dumps({k: (v if k not in ('violations', 'errors', 'known_F19c', 'known_F02c') else len(v)) for k, v in t.items()}, indent=1, sort_keys=True))
     for i, e, tb in t['errors'][:5]:
         print('ERROR case', i, e, tb)
     for i, v, case in t['violations'][:10]:
